@@ -223,7 +223,11 @@ func (its *jsonPrimitive) getTargetByPaths(paths []string) (jsonType, errors.Ord
 			if err != nil {
 				return nil, errors.DatatypeNoTarget.New(its.common.L(), "invalid path:%v from %v", s, strings.Join(paths, "/"))
 			}
-			node = node.(*jsonArray).getJSONType(pos)
+			arr := node.(*jsonArray)
+			if err := arr.validateGetPosition(pos); err != nil {
+				return nil, errors.DatatypeNoTarget.New(its.common.L(), strings.Join(paths, "/"))
+			}
+			node = arr.getJSONType(pos)
 		}
 
 		if node == nil || node.isGarbage() {
